@@ -199,6 +199,13 @@ func resourcesRelease(t *tape.Tape, cfg sim.Config) (res sim.Result) {
 	}
 	g := wasiguest.New(mod)
 	nopen := t.Range(2, 7)
+	// a descriptor table that is large and SPARSE: more descriptors than one word of the table's bitmap,
+	// the oldest ones closed again by the guest, one moved far away by fd_renumber
+	sparse := t.Chance(1, 4)
+	if sparse {
+		nopen = t.Range(66, 140)
+		res.Stat("probe.large_sparse_descriptor_table", 1)
+	}
 	var order []string
 	guestClosed := map[int]bool{} // tracked ids the guest closed itself (fd_close)
 	fdOf := map[int]uint32{}
@@ -215,9 +222,31 @@ func resourcesRelease(t *tape.Tape, cfg sim.Config) (res sim.Result) {
 		}
 		order = append(order, nm)
 	}
+	if sparse {
+		// close the oldest descriptors (holes at the front), move one descriptor far up
+		nclose := t.Range(5, 60)
+		for id := 0; id < len(st.opened) && nclose > 0; id++ {
+			if fd, ok := fdOf[id]; ok && st.opened[id] != "." && !st.failing[st.opened[id]] {
+				g.Call(ctx, "fd_close", uint64(fd))
+				guestClosed[id] = true
+				nclose--
+			}
+		}
+		if t.Chance(1, 2) {
+			for id := len(st.opened) - 1; id >= 0; id-- {
+				if fd, ok := fdOf[id]; ok && !guestClosed[id] {
+					to := uint64(200 + t.Choose(400))
+					if errno, err := g.Call(ctx, "fd_renumber", uint64(fd), to); err == nil && errno == 0 {
+						fdOf[id] = uint32(to)
+					}
+					break
+				}
+			}
+		}
+	}
 	// the guest closes some itself
 	for id := range st.opened {
-		if st.opened[id] != "." && t.Chance(1, 5) {
+		if st.opened[id] != "." && !sparse && t.Chance(1, 5) {
 			if fd, ok := fdOf[id]; ok && !guestClosed[id] {
 				g.Call(ctx, "fd_close", uint64(fd))
 				guestClosed[id] = true
